@@ -36,8 +36,8 @@ const (
 	hEOFRows
 	hWrappedEOF
 	hError
-	hNilBlank  // reset the columns and return nil: a round without rows
-	hOverwrite // overwrite the rows in place (same row count, no Reset) through the columns' exported memory
+	hNilBlank    // reset the columns and return nil: a round without rows
+	hOverwrite   // overwrite the rows in place (same row count, no Reset) through the columns' exported memory
 	hSwap        // hand over other column objects (double buffering): Input[i].Data replaced, the old ones reset
 	hSwapEOFRows // the same, returning io.EOF with the new objects holding the leftover rows
 )
